@@ -104,6 +104,28 @@ unsafe impl GlobalAlloc for CheckingAlloc {
   }
 }
 
+/// size the live block at `p` was really obtained with (None: not a block of this allocator)
+pub fn size_of(p: usize) -> Option<usize> {
+  let mut i = hash(p);
+  let mut n = 0;
+  loop {
+    let s = unsafe { &*std::ptr::addr_of!(TABLE[i]) };
+    if s.ptr == p {
+      return Some(s.size);
+    }
+    if s.ptr == 0 || n > CAP {
+      return None;
+    }
+    i = (i + 1) & (CAP - 1);
+    n += 1;
+  }
+}
+
+/// is the checking allocator installed in this process (does it know any block)?
+pub fn active() -> bool {
+  LIVE_BLOCKS.load(Ordering::Relaxed) > 0
+}
+
 pub fn mismatches() -> usize {
   MISMATCHES.load(Ordering::Relaxed)
 }
